@@ -292,8 +292,13 @@ pub fn gen_model(rng: &mut Rng, min_cols: usize) -> Model {
 #[derive(Clone, Copy, Debug, PartialEq, Eq)]
 enum Loader {
     Raw,
+    /// load_raw_reader / load_zipped_reader over a reader that hands out 1-7 bytes per call
+    RawDribble,
+    ZippedDribble,
     Zipped,
     File,
+    /// load_file_bytes, the encoded instance decoded again
+    FileBytes,
 }
 
 impl Loader {
@@ -302,14 +307,37 @@ impl Loader {
             Loader::Raw => "load_raw_reader",
             Loader::Zipped => "load_zipped_reader",
             Loader::File => "load_file",
+            Loader::RawDribble => "load_raw_reader(short reads)",
+            Loader::ZippedDribble => "load_zipped_reader(short reads)",
+            Loader::FileBytes => "load_file_bytes",
         }
     }
     fn pick(rng: &mut Rng) -> Loader {
         match rng.below(20) {
-            0..=10 => Loader::Raw,
-            11..=16 => Loader::Zipped,
-            _ => Loader::File,
+            0..=7 => Loader::Raw,
+            8 | 9 => Loader::RawDribble,
+            10..=13 => Loader::Zipped,
+            14 | 15 => Loader::ZippedDribble,
+            16 | 17 => Loader::File,
+            _ => Loader::FileBytes,
         }
+    }
+}
+
+/// a reader that returns between 1 and 7 bytes per `read` call, whatever the buffer size
+struct Dribble<'a> {
+    data: &'a [u8],
+    pos: usize,
+    step: usize,
+}
+
+impl std::io::Read for Dribble<'_> {
+    fn read(&mut self, buf: &mut [u8]) -> std::io::Result<usize> {
+        self.step = self.step % 7 + 1;
+        let n = self.step.min(buf.len()).min(self.data.len() - self.pos);
+        buf[..n].copy_from_slice(&self.data[self.pos..self.pos + n]);
+        self.pos += n;
+        Ok(n)
     }
 }
 
@@ -343,12 +371,29 @@ fn load(text: &str, loader: Loader, env: &Env, k: u64, rng: &mut Rng) -> Result<
             let gz = gzip(text, rng);
             probe(|| conv(ommx::mps::load_zipped_reader(&gz[..])))
         }
-        Loader::File => {
+        Loader::RawDribble => {
+            let step = rng.usize_below(7);
+            probe(|| conv(ommx::mps::load_raw_reader(Dribble { data: text.as_bytes(), pos: 0, step })))
+        }
+        Loader::ZippedDribble => {
+            let gz = gzip(text, rng);
+            let step = rng.usize_below(7);
+            probe(|| conv(ommx::mps::load_zipped_reader(Dribble { data: &gz[..], pos: 0, step })))
+        }
+        Loader::File | Loader::FileBytes => {
             let gz = gzip(text, rng);
             std::fs::create_dir_all(&env.scratch).expect("harness: scratch directory");
             let path = env.scratch.join(format!("c17-{k}.mps.gz"));
             std::fs::write(&path, &gz).expect("harness: write scratch file");
-            let r = probe(|| conv(ommx::mps::load_file(&path)));
+            let r = if loader == Loader::File {
+                probe(|| conv(ommx::mps::load_file(&path)))
+            } else {
+                probe(|| {
+                    ommx::mps::load_file_bytes(&path)
+                        .map_err(|e| (variant_name(&e).to_string(), e.to_string()))
+                        .map(|bytes| <v1::Instance as prost::Message>::decode(&bytes[..]).expect("harness: load_file_bytes returns an encoded Instance"))
+                })
+            };
             let _ = std::fs::remove_file(&path);
             r
         }
@@ -671,7 +716,7 @@ impl Property for C17 {
         }
     }
     fn rule(&self) -> &'static str {
-        "each case: one abstract LP/MIP model (<=6 columns, <=5 rows E/L/G with optional RHS and RANGES of both signs, objective row with a foreign name and an optional RHS entry = minus the objective constant, integer marker blocks, BOUNDS from UP LO FX MI PL FR BV LI UI in unambiguous combinations, coefficients k/1..k/8; one model in eight names some but not all rows OMMX_CONSTR_<n>, one in six with a ranged row R also declares a row called R_) rendered by the harness's own free-format MPS writer with random layout (3-/5-field lines, comments, blank lines, tabs, CRLF, OBJSENSE inline / own line / absent, several spellings of each number) and loaded through load_raw_reader, load_zipped_reader or load_file; about 75% well-formed files compared by name with the expected problem, 20% files with one injected defect that must be refused, 5% files with entries the reader is known to ignore (counted only). Non-trivial = well-formed file with >=1 column and (>=1 row or a non-constant objective); distinct = fingerprint of the rendered text."
+        "each case: one abstract LP/MIP model (<=6 columns, <=5 rows E/L/G with optional RHS and RANGES of both signs, objective row with a foreign name and an optional RHS entry = minus the objective constant, integer marker blocks, BOUNDS from UP LO FX MI PL FR BV LI UI in unambiguous combinations, coefficients k/1..k/8; one model in eight names some but not all rows OMMX_CONSTR_<n>, one in six with a ranged row R also declares a row called R_) rendered by the harness's own free-format MPS writer with random layout (3-/5-field lines, comments, blank lines, tabs, CRLF, OBJSENSE inline / own line / absent, several spellings of each number) and loaded through load_raw_reader, load_zipped_reader (each also over a reader that hands out 1-7 bytes per call), load_file or load_file_bytes (decoded again); about 75% well-formed files compared by name with the expected problem, 20% files with one injected defect that must be refused, 5% files with entries the reader is known to ignore (counted only). Non-trivial = well-formed file with >=1 column and (>=1 row or a non-constant objective); distinct = fingerprint of the rendered text."
     }
     fn assumptions(&self) -> Vec<&'static str> {
         vec![
